@@ -293,6 +293,14 @@ def run(ctx):
     ngen = int(os.environ.get("C09_NGEN") or ctx.scale(180, 6000))
     for i in range(ngen):
         programs.append(("gen/%d" % i, c09gen.generate(rng.fork("p%d" % i), 2 + i % 3)))
+    # the stage-interface generator of C17 (every attribute order, IO structs, dual-source outputs, builtins) and the
+    # shared typed generator (pointer lets, helpers called from continuing blocks, run-time subscripts)
+    import ifacegen
+    import wgslgen
+    for i in range(ctx.scale(60, 1500)):
+        programs.append(("iface/%d" % i, ifacegen.generate(rng.fork("if%d" % i), i)[0]))
+    for i in range(ctx.scale(60, 1500)):
+        programs.append(("typed/%d" % i, wgslgen.generate(rng.fork("ty%d" % i), {"atomics": i % 3 == 0})[1]))
     results = compile_all(tools, programs)
     accepted = []
     rejected = {}
